@@ -345,18 +345,17 @@ Definition pa_check_fee (dev cw : bool) (t : tx) (u : utxo) (pp : params) : outc
   if pa_plutus cw t then pa_check_collaterals cw t u pp else ok.
 
 (* conway_add_minted_non_zero *)
-Definition PANIC_I64_ADD : Z := 6.
+(* conway_add_same_non_zero_policy_assets: the sum is taken in i128 and must stay within u64;
+   a burn of an asset that is not there is a negative value *)
 Fixpoint add_same_non_zero (dev : bool) (old new : list (Z * Z)) : outcome (list (Z * Z)) :=
   match new with
   | [] => Ok old
   | (n, q) :: r =>
       match find_q n old with
       | Some o =>
-          let s := u64_as_i64 o + q in
-          if negb (in_i64 s) && dev then Panic PANIC_I64_ADD else
-          let s' := if in_i64 s then s else (if s <? 0 then s + U64 else s - U64) in   (* wrapping i64 add *)
-          if s' <? 0 then Err 415 else add_same_non_zero dev (set_q n (i64_as_u64 s') old) r
-      | None => add_same_non_zero dev (set_q n (i64_as_u64 q) old) r
+          let s := o + q in
+          if (s <? 0) || (U64 - 1 <? s) then Err 415 else add_same_non_zero dev (set_q n s old) r
+      | None => if q <? 0 then Err 415 else add_same_non_zero dev (set_q n q old) r
       end
   end.
 Fixpoint add_into_non_zero (dev : bool) (res x : assets) : outcome assets :=
@@ -368,7 +367,7 @@ Fixpoint add_into_non_zero (dev : bool) (res x : assets) : outcome assets :=
   end.
 Definition conway_add_minted (dev : bool) (base : value) (mint : assets) : outcome value :=
   match base with
-  | VCoin n => Ok (VMulti n (map_q i64_as_u64 mint))
+  | VCoin n => r <- conway_coerce_to_coin mint 415 ;; Ok (VMulti n r)   (* conway_coerce_to_non_zero_coin: every quantity > 0 *)
   | VMulti n bm =>
       r1 <- add_into cadd64 [] bm 415 ;;
       r2 <- add_into_non_zero dev r1 mint ;;
@@ -542,7 +541,8 @@ Definition era_checks (dev : bool) (t : tx) (u : utxo) (e : env) : list (outcome
   | 1 | 2 | 3 => shelley_checks dev t u e
   | 4 => alonzo_checks dev t u e
   | 5 => pa_checks dev false t u e
-  | _ => pa_checks dev true t u e
+  | 6 => pa_checks dev true t u e
+  | _ => []
   end.
 Definition validate (dev : bool) (t : tx) (u : utxo) (e : env) : outcome unit :=
   let pe := p_era (e_pp e) in let te := t_era t in
@@ -554,3 +554,12 @@ Definition validate (dev : bool) (t : tx) (u : utxo) (e : env) : outcome unit :=
      else Err E_EnvMissingAccountState)
   else if pe =? te then seq_checks (era_checks dev t u e)
   else Err E_TxAndProtParamsDiffer.
+
+(* ---------------------------------------------------------------- well-formedness: ranges of the Rust types *)
+Definition wf_params (pp : params) : bool :=
+  in_u32 (p_minfee_a pp) && in_u32 (p_minfee_b pp) && in_u32 (p_collateral_percentage pp).
+Definition wf_tx (t : tx) : bool :=
+  in_u64 (t_fee t) && match t_coll_return t with Some o => 0 <=? coin_of (o_val o) | None => true end.
+Definition wf_utxo (u : utxo) : bool := forallb (fun ko => coin_of (u_val (snd ko)) <? U64) u.
+
+
